@@ -1079,9 +1079,17 @@ def plan_threads(focus, seed, tier):
             lanes.append(lane)
         if len(lanes) < 2:
             continue
-        b.op(op="CONC", lanes=lanes, switches=_switches(rng), first=rng.randrange(len(lanes)),
-             order=rng.choice(["seq_first", "seq_after"]), share=share,
-             rng_mode=rng.choice(["low", "high"]))
+        cop = b.op(op="CONC", lanes=lanes, switches=_switches(rng),
+                   first=rng.randrange(len(lanes)),
+                   order=rng.choice(["seq_first", "seq_after"]), share=share,
+                   rng_mode=rng.choice(["low", "high"]))
+        if rng.random() < 0.25:
+            # one lane's call is cancelled half-way (KeyboardInterrupt, a watchdog): the other
+            # lanes and every later call must not notice
+            import math
+            cop["interrupt"] = {"lane": rng.randrange(len(lanes)),
+                                "after": rng.randint(1, 60) if rng.random() < 0.4 else
+                                int(math.exp(rng.uniform(0.0, math.log(4000.0))))}
     b.plan["replicas"] = [{"env": {}, "disk_cfg": {}}]
     return b.plan
 
